@@ -1881,13 +1881,41 @@ func elementToBytes(el *etree.Element) ([]byte, error) {
 	return doc.WriteToBytes()
 }
 
-// unmarshalElement serializes el into v by serializing el and then parsing it with xml.Unmarshal.
+// unmarshalElement serializes el into v by serializing el and then parsing it with encoding/xml.
+//
+// Namespace declarations are resolved by the tokenizer and then kept from the struct decoder:
+// encoding/xml matches an `xml:",attr"` field by local name in any namespace, the "xmlns" one
+// included, and the last match wins. A declaration such as xmlns:Destination="..." - which
+// exclusive canonicalization leaves out of the signed octets because nothing uses the prefix -
+// would otherwise be decoded as (and take precedence over) the Destination attribute.
 func unmarshalElement(el *etree.Element, v interface{}) error {
 	buf, err := elementToBytes(el)
 	if err != nil {
 		return err
 	}
-	return xml.Unmarshal(buf, v)
+	return xml.NewTokenDecoder(withoutNamespaceDeclarations{xml.NewDecoder(bytes.NewReader(buf))}).Decode(v)
+}
+
+// withoutNamespaceDeclarations is an xml.TokenReader that yields the tokens of d, names already
+// translated to their namespaces, without the namespace declarations among the attributes.
+type withoutNamespaceDeclarations struct {
+	d *xml.Decoder
+}
+
+func (r withoutNamespaceDeclarations) Token() (xml.Token, error) {
+	token, err := r.d.Token()
+	if start, ok := token.(xml.StartElement); ok {
+		attrs := make([]xml.Attr, 0, len(start.Attr))
+		for _, attr := range start.Attr {
+			if attr.Name.Space == "xmlns" || (attr.Name.Space == "" && attr.Name.Local == "xmlns") {
+				continue
+			}
+			attrs = append(attrs, attr)
+		}
+		start.Attr = attrs
+		token = start
+	}
+	return token, err
 }
 
 func elementToString(el *etree.Element) string {
